@@ -1,1 +1,166 @@
-/-! C12 - property theorems (declared with their full name `C12.<name>`; helper lemmas go to Lemmas/) -/
+import CohdlVerif.Lemmas.C12Example
+
+/-!
+  C12 - property theorems: instantiating an entity is equivalent to inlining it.
+
+  For EVERY hierarchy `d` (any depth, fan-out, repeated templates, slice actuals; induction over the mutual
+  inductive `Tmpl`/`Insts`) and EVERY input sequence:
+
+  * `C12.elab_eq_flatten`            elaborating the emitted library `emitHier d` by renaming (design units analysed
+                                     in library order, formals = aliases of their actuals) behaves like the flat
+                                     design `flatten d` (actuals substituted for formals, logic placed inline);
+  * `C12.interface_exact`            the emitted interfaces are exactly the declared ports (names, directions,
+                                     types, order), one for every template;
+  * `C12.template_emitted_once`      no two emitted entities share a name and every template is there;
+  * `C12.subentities_first`          every entity is preceded by the entities it instantiates;
+  * `C12.formal_wired_to_its_actual` every emitted port map associates each declared port, in declaration order,
+                                     with exactly the object given for it.
+
+  Hypotheses: `Consistent d` (an entity class is ONE object: equal names = equal templates; the compiler
+  identifies templates by object identity) and `WfT d` (every keyword argument of an instantiation names a
+  declared port - enforced by `Entity.__init__`).  Helper lemmas: Lemmas/C12Lemmas.lean, Lemmas/C12Subst.lean.
+-/
+open CohdlVerif.C12
+
+-- the example design `top0` (a clocked leaf instantiated twice, once on slices) and the proofs that it satisfies the
+-- hypotheses (`top0_consistent`, `top0_wf`) are in Lemmas/C12Example.lean
+
+/-- THE PROPERTY on the model, for all hierarchies and all input sequences: the emitted hierarchical library,
+    elaborated by renaming, behaves exactly like the design with every sub-entity's logic placed inline. -/
+theorem C12.elab_eq_flatten (d : Tmpl) (hc : Consistent d) (hw : WfT d)
+    (inputs : List (List (String × Nat))) :
+    simHier (emitHier d) inputs = simFlatP d.ports (flatten d) inputs := by
+  cases d with
+  | mk n p l lg is =>
+    have hfresh : ∀ s ∈ subIs is, s.name ≠ n := fun s hs => top_fresh (Tmpl.mk n p l lg is) hc s hs
+    have hnot : hasName (collectIs [] is) n = false := by
+      cases hh : hasName (collectIs [] is) n with
+      | false => rfl
+      | true =>
+          exfalso
+          obtain ⟨e, he, hen⟩ := (hasName_iff _ _).mp hh
+          rcases collectIs_mem is [] e he with h | ⟨s, hs, hes⟩
+          · simp at h
+          · subst hes
+            exact hfresh s hs (by simpa using hen)
+    have hlib : (emitHier (Tmpl.mk n p l lg is)).reverse
+        = emitEntity (Tmpl.mk n p l lg is) :: collectIs [] is := by
+      simp [emitHier, collectT, hnot]
+    have hw' : WfIs is := by simpa [WfT] using hw
+    have hok : TblOk (Tmpl.mk n p l lg is) (collectIs [] is) :=
+      collectIs_tblOk _ hc is [] (fun s hs => by simp [subT, hs]) hw'
+        (fun s _ h => by simp [hasName] at h)
+    have hcor : Correct (elabEntity (elabTbl (collectIs [] is)) (emitEntity (Tmpl.mk n p l lg is)))
+        (Tmpl.mk n p l lg is) := by
+      apply elabEntity_correct _ _ hw
+      intro ca hca
+      have hcs : ca.1 ∈ subIs is := instList_sub is ca hca ca.1 (self_mem_subT _)
+      exact hok ca.1 (by simp [subT, hcs]) (collectIs_complete is [] ca.1 hcs)
+    have hitems := hcor "" (idBinding p)
+    simp only [simHier, hlib, simFlatP, flatten, Tmpl.ports, emitEntity_ports]
+    rw [← hitems, sigs_subst, procs_subst]
+
+example : simHier (emitHier top0) [[("x", 0x21)], [("x", 0x35)]]
+    = simFlatP top0.ports (flatten top0) [[("x", 0x21)], [("x", 0x35)]] :=
+  C12.elab_eq_flatten top0 top0_consistent top0_wf _
+
+/-- the emitted interface of every entity consists of exactly the declared ports of a template of the design
+    (names, directions, types, order), and every template of the design has its entity -/
+theorem C12.interface_exact (d : Tmpl) :
+    (∀ e ∈ emitHier d, ∃ s ∈ subT d, e.name = s.name ∧ e.ports = s.ports) ∧
+    (Consistent d → ∀ s ∈ subT d, ∃ e ∈ emitHier d, e.name = s.name ∧ e.ports = s.ports) := by
+  constructor
+  · intro e he
+    rw [emitHier, List.mem_reverse] at he
+    rcases collectT_mem d [] e he with h | ⟨s, hs, rfl⟩
+    · simp at h
+    · exact ⟨s, hs, by simp, by simp⟩
+  · intro hc s hs
+    have hname := collectT_complete d [] s hs
+    obtain ⟨e, he, hen⟩ := (hasName_iff _ _).mp hname
+    refine ⟨e, by rw [emitHier, List.mem_reverse]; exact he, hen, ?_⟩
+    rcases collectT_mem d [] e he with h | ⟨s', hs', rfl⟩
+    · simp at h
+    · have : s' = s := hc s' hs' s hs (by simpa using hen)
+      subst this; simp
+
+/-- each entity template is emitted once (no two emitted entities share a name) and none is missing -/
+theorem C12.template_emitted_once (d : Tmpl) :
+    ((emitHier d).map (·.name)).Nodup ∧ ∀ s ∈ subT d, s.name ∈ (emitHier d).map (·.name) := by
+  constructor
+  · have h := collectT_nodup d [] (by simp [NamesNodup])
+    simp only [NamesNodup] at h
+    simp only [emitHier, List.map_reverse]
+    exact nodup_reverse_of_nodup h
+  · intro s hs
+    obtain ⟨e, he, hen⟩ := (hasName_iff _ _).mp (collectT_complete d [] s hs)
+    simp only [List.mem_map]
+    exact ⟨e, by rw [emitHier, List.mem_reverse]; exact he, hen⟩
+
+/-- sub-entities are emitted before the entities that use them -/
+theorem C12.subentities_first (d : Tmpl) (pre post : List Entity) (e : Entity)
+    (h : emitHier d = pre ++ e :: post) : ∀ i ∈ e.insts, ∃ s ∈ pre, s.name = i.entity := by
+  intro i hi
+  have hcl := collectT_closed d [] Closed.nil
+  have hrev : collectT [] d = post.reverse ++ e :: pre.reverse := by
+    have := congrArg List.reverse h
+    simpa [emitHier] using this
+  rw [hrev] at hcl
+  obtain ⟨s, hs, hn⟩ := (hasName_iff _ _).mp (Closed_split _ _ _ hcl i hi)
+  exact ⟨s, by simpa using hs, hn⟩
+
+/-- what `EntityInst._port_map` prints for an instance whose every declared port has an actual: one association per
+    declared port, in declaration order, each formal with exactly the object given for it by keyword -/
+theorem C12.port_map_exact (ports : List Port) (acts : List (String × Actual))
+    (hall : ∀ p ∈ ports, (acts.lookup p.name).isSome = true) :
+    (pmapOf ports acts).map (·.1) = ports.map (·.name) ∧
+    ∀ p ∈ ports, (pmapOf ports acts).lookup p.name = (acts.lookup p.name).map (·.ref) := by
+  constructor
+  · induction ports with
+    | nil => rfl
+    | cons p ps ih =>
+        have hp := hall p (by simp)
+        have ih' := ih (fun q hq => hall q (by simp [hq]))
+        simp only [pmapOf, List.filterMap_cons] at ih' ⊢
+        cases ha : acts.lookup p.name with
+        | none => simp [ha] at hp
+        | some a => simp [ih']
+  · intro p hp
+    rw [lookup_pmapOf]
+    have : ports.any (fun q => q.name == p.name) = true := by
+      simp only [List.any_eq_true]; exact ⟨p, hp, by simp⟩
+    simp [this]
+
+example : (pmapOf leaf0.ports [("q", ⟨⟨"u", 4, 4⟩, false⟩), ("a", ⟨⟨"x", 4, 4⟩, false⟩)]).map (·.1) = ["a", "q"] := by
+  decide
+
+/-- every formal port is wired to exactly the actual given for it: every instance statement of every emitted
+    entity is the port map (`pmapOf`, see `C12.port_map_exact`) of an instantiation in the design -/
+theorem C12.formal_wired_to_its_actual (d : Tmpl) :
+    ∀ e ∈ emitHier d, ∃ s ∈ subT d, e = emitEntity s ∧
+      ∀ i ∈ e.insts, ∃ ca ∈ instList s.insts, i.entity = ca.1.name ∧ i.pmap = pmapOf ca.1.ports ca.2 ∧
+        ∀ f, i.pmap.lookup f =
+          if ca.1.ports.any (fun p => p.name == f) then (ca.2.lookup f).map (·.ref) else none := by
+  intro e he
+  rw [emitHier, List.mem_reverse] at he
+  rcases collectT_mem d [] e he with h | ⟨s, hs, rfl⟩
+  · simp at h
+  · refine ⟨s, hs, rfl, ?_⟩
+    intro i hi
+    rw [emitEntity_insts] at hi
+    obtain ⟨ca, hca, h1, h2⟩ := emitInsts_mem s.insts 0 i hi
+    exact ⟨ca, hca, h1, h2, fun f => by rw [h2, lookup_pmapOf]⟩
+
+/-! non-vacuity: the example design `top0` (Lemmas/C12Example.lean) satisfies the hypotheses used above -/
+
+example : emitHier top0 = [emitEntity leaf0] ++ emitEntity top0 :: [] := by rfl
+
+example : ∃ e ∈ emitHier top0, e.name = "L" ∧ e.ports = leaf0.ports :=
+  (C12.interface_exact top0).2 top0_consistent leaf0
+    (by simp only [top0, subT, subIs, List.mem_cons, List.mem_append]; exact Or.inr (Or.inl (self_mem_subT leaf0)))
+
+example : ∀ i ∈ (emitEntity top0).insts, ∃ s ∈ [emitEntity leaf0], s.name = i.entity :=
+  C12.subentities_first top0 [emitEntity leaf0] [] (emitEntity top0) (by rfl)
+
+example : ∀ p ∈ leaf0.ports, (([("q", ⟨⟨"u", 4, 4⟩, false⟩), ("a", ⟨⟨"x", 4, 4⟩, false⟩)] :
+    List (String × Actual)).lookup p.name).isSome = true := by decide
